@@ -332,6 +332,11 @@ def main(pid, tier):
             v.sample({'config': name,
                       'behaviour': [s['act'] for s in cases[-1]['steps']]})
         run_sim(pid, tier, v, build)
+        # code -> spec: random programs over larger graphs, with re-basing
+        # from inside change notifications, recorded from the real code and
+        # validated by TraceSpecGraph.tla
+        import trace_specgraph
+        trace_specgraph.validate(build, v, pid, tier)
     v.cov['exhaustive'] = exhaustive
     return v.finish()
 
